@@ -232,6 +232,22 @@ func TestExecUnionEdge(t *testing.T) {
 	})
 }
 
+// TestExecSharedFragments biases the query generator towards named fragments that are spread
+// at several places, each spread followed by a fragment that selects one of the fragment's
+// composite fields again (a merged copy built on top of a selection set all spreads share).
+func TestExecSharedFragments(t *testing.T) {
+	rapid.Check(t, func(t *rapid.T) {
+		c, f := genCase(t, world.GenOpts{ShareBias: true})
+		if rapid.Bool().Draw(t, "structural") {
+			if q := world.GenSharedFragQuery(t, c.Spec); q != nil {
+				c.Query, c.Text = q, q.Text()
+				f = world.Features{SpreadTwice: 1, MergedAlias: 1, NamedFrags: 1}
+			}
+		}
+		run(t, "TestExecSharedFragments", c, f)
+	})
+}
+
 func defaultCombos(s *world.Spec) []Combo {
 	var out []Combo
 	for i, sc := range sched.Names {
